@@ -33,6 +33,7 @@ COMP = 'c07x'
 PROVED_STATE = {'proved': ['EBCM -> SIR compact effective degree (binomial change of variables Phi_ced, formal derivative) and the wrapper\'s initial point Phi_ced(1,0)',
                            'EBCM -> SIR effective degree, full (s,i) model (trinomial change of variables Phi_ed), over the hand-written model and over the definition generated from the source, and the wrapper\'s initial point Phi_ed(1,0)',
                            'heterogeneous mean-field SIR on one degree class -> homogeneous mean-field SIR without the assumed chain rule',
+                           'returned S, I, R series of the four big wrappers = EBCM_from_graph\'s at every time index, with the cited uniqueness lift as the only (explicit) hypothesis; solvers abstract',
                            'regular graphs, rho path: compact pairwise / homogeneous pairwise (SIS, SIR) and heterogeneous / homogeneous mean-field (SIS, SIR) wrappers start at corresponding points'],
                 'numerical': []}
 
